@@ -78,6 +78,7 @@ type Policy struct {
 	Mute       string  `json:"mute"`        // yield classes that do not park, e.g. "R6,R7"
 	MapPerm    bool    `json:"map_perm"`    // permute map iteration order (seeded) instead of canonical order
 	PCTDepth   int     `json:"pct_depth"`
+	Overlap    int     `json:"overlap,omitempty"` // race mode: release up to this many eligible tasks in one step
 	MaxSteps   int     `json:"max_steps"`
 	IdleLimit  int     `json:"idle_limit"` // consecutive idle sleeps with no foreground progress => stuck
 	HorizonNs  int64   `json:"horizon_ns"` // length of one idle sleep
@@ -111,6 +112,7 @@ type Sched struct {
 	pctChange map[int]bool
 
 	Steps      int
+	Overlaps   int
 	Switches   int
 	Unknown    []string // zzsim calls from goroutines that are not tasks
 	TracePairs map[string]int
@@ -808,6 +810,25 @@ func (s *Sched) Run(done func() bool) string {
 					s.sleep(time.Duration(ns))
 					continue
 				}
+				if strings.Contains(d, "&") {
+					// race mode: a set of tasks released together
+					var set []*Task
+					for _, name := range strings.Split(d, "&") {
+						for _, t := range elig {
+							if t.Name == name {
+								set = append(set, t)
+							}
+						}
+					}
+					if len(set) == 0 {
+						set = []*Task{s.fallback(elig)}
+					}
+					s.Decisions = append(s.Decisions, d)
+					for _, t := range set {
+						s.release(t)
+					}
+					continue
+				}
 				var pick *Task
 				for _, t := range elig {
 					if t.Name == d {
@@ -837,6 +858,30 @@ func (s *Sched) Run(done func() bool) string {
 			continue
 		}
 		pick := s.choose(elig)
+		if s.pol.Overlap > 1 && len(elig) > 1 && s.rng.IntN(2) == 0 {
+			// overlap window: several tasks run their next segment at the same time, so that the
+			// race detector can see unordered conflicting accesses between them
+			set := []*Task{pick}
+			perm := s.rng.Perm(len(elig))
+			for _, i := range perm {
+				if len(set) >= s.pol.Overlap {
+					break
+				}
+				if elig[i] != pick {
+					set = append(set, elig[i])
+				}
+			}
+			ns := make([]string, len(set))
+			for i, t := range set {
+				ns[i] = t.Name
+			}
+			s.Decisions = append(s.Decisions, strings.Join(ns, "&"))
+			s.Overlaps++
+			for _, t := range set {
+				s.release(t)
+			}
+			continue
+		}
 		s.Decisions = append(s.Decisions, pick.Name)
 		s.release(pick)
 	}
